@@ -24,14 +24,14 @@ from concurrent.futures import ThreadPoolExecutor
 from pathlib import Path
 
 from vlib import mutate, tlc
-from vlib.common import ToolError, build_wild, log, save_replay, scratch, sh, trim_samples
+from vlib.common import REPO, ToolError, build_wild, log, save_replay, scratch, sh, trim_samples
 
 PROP = "C22"
 META = {
     "ready": True,
     "level": "exploration",
     "technique": "TLA+ outcome oracle plus a TLC-enumerated mutation grammar (carrier x locus x mutation); every descriptor applied to valid seed inputs and run through the real wild (forked and --no-fork) under a hard timeout, outcomes classified and panic sites extracted",
-    "level_text": "TLC enumerates the full product of 9 carriers x structural loci (ELF header / section header / symbol / relocation / group / note / eh_frame / compressed header / merge fields, program headers, dynamic entries, version tables, GNU hash header, archive header fields and symbol table, thin-archive member paths, token positions of four text formats, every command-line option) x mutations (0, 1, -1, max, bound-1, bound, bound+1, swap with neighbour, truncate here; token deletions/insertions, unbalanced braces/quotes/comments, huge numbers, non-UTF-8; missing/empty/garbage parameters, @file recursion). The harness applies each descriptor to a seed that links unmutated and requires Outcome in {Success, Diagnostic(exit != 0 and a message)} and termination, in both process modes. Quick: seeded sample within a time budget; thorough: the whole product.",
+    "level_text": "TLC enumerates the full product of 9 carriers x structural loci (ELF header / section header / symbol / relocation / group / note / eh_frame / compressed header / merge fields, program headers, dynamic entries, version tables, GNU hash header, archive header fields and symbol table, thin-archive member paths, token positions of four text formats, every command-line option) x mutations (0, 1, -1, max, bound-1, bound, bound+1, swap with neighbour, truncate here; token deletions/insertions, unbalanced braces/quotes/comments, huge numbers, non-UTF-8, replacement of a name by every other word of the same text (self / forward / cyclic references between version nodes, sections, symbols - this class is always run in full, also in quick); missing/empty/garbage parameters, @file recursion). The harness applies each descriptor to a seed that links unmutated and requires Outcome in {Success, Diagnostic(exit != 0 and a message)} and termination, in both process modes. Quick: seeded sample within a time budget; thorough: the whole product.",
     "level_note": "This is robustness fuzzing with a model-derived, systematically enumerated corpus, not model checking: the specification contributes the outcome oracle and the locus x mutation enumeration. One seed per carrier, x86-64 only, --threads=1 for reproducible panic sites, single-field mutations only (no byte-level havoc); SHT_SYMTAB_SHNDX has no seed (counted as unsupported). The wild binary is a debug build, so arithmetic-overflow checks count as panics.",
     "engine": "tlc",
 }
@@ -54,12 +54,13 @@ def panic_site(err):
     return f"{path}:{line}"
 
 
+_FRAME_RE = r"^\s+at (?:/repo/|\./|" + re.escape(str(REPO)) + r"/)([^\s:]+):(\d+)(?::\d+)?\s*$"   # REPO differs from /repo only when a seeded change is tried in a scratch worktree
 REPO_DIRS = ("libwild/", "linker-utils/", "wild/", "linker-diff/", "linker-layout/", "linker-trace/")
 
 
 def first_repo_frame(err):
     """First backtrace frame whose source is in the repository (RUST_BACKTRACE=1, debug build)."""
-    for m in re.finditer(r"^\s+at (?:/repo/|\./)([^\s:]+):(\d+)(?::\d+)?\s*$", err, re.M):
+    for m in re.finditer(_FRAME_RE, err, re.M):
         f = m.group(1)
         if f.startswith("src/"):
             continue
@@ -72,7 +73,7 @@ def frame_function(err, loc):
     """Name of the function of the backtrace frame located at `loc` (repo-relative file:line)."""
     lines = err.splitlines()
     for i, ln in enumerate(lines):
-        m = re.match(r"^\s+at (?:/repo/|\./)([^\s:]+):(\d+)(?::\d+)?\s*$", ln)
+        m = re.match(_FRAME_RE, ln)
         if m and f"{m.group(1)}:{m.group(2)}" == loc and i > 0:
             f = re.sub(r"^\s*\d+:\s*", "", lines[i - 1]).strip()
             f = re.sub(r"::\{\{closure\}\}", "", f)
@@ -262,6 +263,10 @@ def run(ctx):
         cases, unsupported = expand(descs, seeds, forms)
         cases.sort(key=lambda c: (c["carrier"], str(c["locus"]), c["mutation"]))
         rng.shuffle(cases)
+        # always-run core, before the seeded sample: the cross-reference mutations of the text carriers (a small class
+        # whose members are each a distinct structural situation - self / forward / cyclic reference, keyword as name)
+        cases.sort(key=lambda c: 0 if str(c["mutation"]).startswith("xref-") else 1)
+        cov["always_run_xref_cases"] = sum(1 for c in cases if str(c["mutation"]).startswith("xref-"))
         budget = int(os.environ.get("VERIF_C22_BUDGET", 110 if ctx.quick else 1500))
         results = []
         t0 = time.time()
@@ -272,7 +277,7 @@ def run(ctx):
                 for rs in ex.map(lambda ic: run_case(ic[0], ic[1], d, seeds, forms, wild), chunk):
                     results += rs
                 done = lo + len(chunk)
-                if time.time() - t0 > budget:
+                if time.time() - t0 > budget and done >= cov["always_run_xref_cases"]:
                     break
         counts = {}
         keys = {}
